@@ -57,6 +57,8 @@ pub struct ConstSrc {
 
 #[derive(Default)]
 pub struct Index {
+    /// selector -> original source text ("trait:Name", "impl:Trait for Ty", "fn:name", "const:NAME")
+    pub raw: BTreeMap<String, Vec<(String, usize, String)>>,
     pub fns: BTreeMap<String, Vec<FnSrc>>,
     pub traits: BTreeMap<String, TraitInfo>,
     pub types: BTreeMap<String, TypeSrc>,
@@ -167,6 +169,24 @@ impl Index {
 
     fn index_items(&mut self, rel: &str, src: &str, items: &[Item], trait_names: &BTreeSet<String>, from_macro: Option<String>, modpath: &str) {
         for it in items {
+            if from_macro.is_none() {
+                let sel: Option<String> = match it {
+                    Item::Trait(t) => Some(format!("trait:{}", t.ident)),
+                    Item::Impl(im) => Some(match &im.trait_ {
+                        Some((_, p, _)) => format!("impl:{}for{}", norm(&p.to_token_stream().to_string()), norm(&im.self_ty.to_token_stream().to_string())),
+                        None => format!("impl:{}", norm(&im.self_ty.to_token_stream().to_string())),
+                    }),
+                    Item::Fn(f) => Some(format!("fn:{}", f.sig.ident)),
+                    Item::Const(c) => Some(format!("const:{}", c.ident)),
+                    Item::Struct(s) => Some(format!("type:{}", s.ident)),
+                    Item::Enum(e) => Some(format!("type:{}", e.ident)),
+                    _ => None,
+                };
+                if let Some(sel) = sel {
+                    let sp = syn::spanned::Spanned::span(it);
+                    self.raw.entry(sel).or_default().push((rel.to_string(), sp.start().line, slice_text(src, sp)));
+                }
+            }
             match it {
                 Item::Trait(t) => {
                     let name = t.ident.to_string();
@@ -306,6 +326,22 @@ impl Index {
                     }
                 }
                 _ => {}
+            }
+        }
+    }
+
+    pub fn raw_item(&self, sel: &str) -> String {
+        let (kind, rest) = sel.split_once(':').unwrap_or_else(|| die(&format!("bad raw selector {}", sel)));
+        let (rest, file) = match rest.split_once('@') { Some((a, b)) => (a, b), None => (rest, "") };
+        let key = if kind == "impl" { format!("impl:{}", norm(&rest.replacen(" for ", "for", 1))) } else { format!("{}:{}", kind, rest) };
+        match self.raw.get(&key) {
+            None => die(&format!("lost anchor: item `{}` not found in /repo/src", sel)),
+            Some(v) => {
+                let c: Vec<_> = v.iter().filter(|x| file.is_empty() || x.0 == file).collect();
+                if c.len() != 1 {
+                    die(&format!("lost anchor: item `{}` matches {} definitions", sel, c.len()));
+                }
+                format!("// extracted unchanged from src/{}:{}\n{}", c[0].0, c[0].1, c[0].2)
             }
         }
     }
